@@ -26,6 +26,12 @@ theorem C19_gen_libSwitches :
     Generated.singleRequestDrainsWhenLength.isSome = true ∧ Generated.singleRequestClosesWhenNoLength.isSome = true := by
   decide
 
+/-- The non-200 path never closes the response object unread: a response that is not read to its announced length stays
+    open, which is the model's `pending` flag (http.client refuses the next `getresponse`, close-on-error then drops the
+    connection with everything that arrived on it); there is no transition of the model in which a connection is
+    reused while bytes of an earlier exchange can still arrive on it. -/
+theorem C19_gen_responseNotClosedUnread : Generated.singleRequestClosesResponseUnread = some false := by decide
+
 theorem C19_gen_emptyBodyNone : Generated.runRequestEmptyBodyNone = some true := by decide
 
 end JRV.Props
